@@ -28,6 +28,8 @@ func init() {
 			ruleConcatRank(c, "R4")
 			ruleSummaryByBuilder(c, "R5")
 			ruleReadersWriteNothing(c, "R6")
+			ruleReleasedObjectsStayInside(c, "R7")
+			ruleNoSharingByStructCopy(c, "R8")
 		},
 	})
 }
@@ -373,7 +375,7 @@ func rulePool(c *Ctx, rule string) {
 	a := c.A
 	c.R.Rule(c.R.Property+"."+rule+"a", 3, "the context pool has one owner (NewContext gets, Destroy puts the context itself)")
 	c.R.Rule(c.R.Property+"."+rule+"b", 1, "a context obtained from the pool always starts empty: reset on every path out of NewContext")
-	c.R.Rule(c.R.Property+"."+rule+"c", 4, "Reset covers every field of Context")
+	c.R.Rule(c.R.Property+"."+rule+"c", 2, "Reset covers every field of Context")
 	c.R.Rule(c.R.Property+"."+rule+"d", 4, "no use of a context after its release and no escape of it in the ServeHTTP methods")
 	c.R.Rule(c.R.Property+"."+rule+"e", 1, "nothing touches a context after it was put back into the pool")
 	// find the pool variable
